@@ -361,6 +361,8 @@ def num_class(ev):
         return "field|%s|%s%s" % (ev["layout"], ev["f"], "|aliased" if ev.get("aliased") else "")
     if op == "scalar":
         return "scalar|%s|%s|%s" % (ev["layout"], ev["f"], ev.get("w", ev.get("ls", "")))
+    if op == "formula":
+        return "formula|%s|%s" % (ev["f"], ev.get("sign", 0))
     if op == "group":
         return "group|%s|%s" % (ev["f"], "pos=%s,b=%s" % (ev["pos"], ev["b"]) if ev["f"] == "choose" else ev.get("pt", ev.get("i", "")))
     return op
@@ -382,6 +384,9 @@ def num_family(ctx, configs):
         known = {"Add", "AddAfterBasic", "AddReduce", "Sub", "SubAfterBasic", "SubReduce", "Neg", "Mul", "Square", "SquareTimes"}
         n = sum(1 for ln in open(trace) if '"op":"field"' in ln.replace(" ", "") and json.loads(ln).get("f") in known)
         ctx.notes["limb_exact_events"] = ctx.notes.get("limb_exact_events", 0) + n
+        # point-formula calls whose result coordinates were compared with the transcribed formulas (GroupFormulasBig); differences are NOTEs
+        n = sum(1 for ln in open(trace) if '"op":"formula"' in ln.replace(" ", ""))
+        ctx.notes["formula_coordinate_events"] = ctx.notes.get("formula_coordinate_events", 0) + n
     ctx.notes.setdefault("model_notes", 0)
     report_mismatches(ctx, mism)
 
